@@ -99,40 +99,40 @@ func staticClasses(f *sgen.Feed, info sgen.GenInfo, dims int) (classes []string,
 	return dedupe(classes), filesWith2
 }
 
-func TestC01(t *testing.T) {
-	rapid.Check(t, func(t *rapid.T) {
-		o := sgen.DefaultGenOpts()
-		if tierThorough() && rapid.IntRange(0, 3).Draw(t, "large") == 0 {
-			o = sgen.LargeGenOpts()
+func TestC01(t *testing.T) { rapid.Check(t, propC01) }
+
+func propC01(t *rapid.T) {
+	o := sgen.DefaultGenOpts()
+	if tierThorough() && rapid.IntRange(0, 3).Draw(t, "large") == 0 {
+		o = sgen.LargeGenOpts()
+	}
+	o.ExplicitDefaults = true
+	o.GapDays = true
+	f, info := sgen.GenFeed(t, o)
+	inflated := 0
+	if k := rapid.IntRange(0, 199).Draw(t, "inflate"); k == 0 || (tierThorough() && k < 8) {
+		// size-dependent behaviour: a few hundred to a few thousand rows, and very long cells
+		inflated = rapid.SampledFrom([]int{300, 1100, 4200}).Draw(t, "inflateTo")
+		if !tierThorough() {
+			inflated = 300
 		}
-		o.ExplicitDefaults = true
-		o.GapDays = true
-		f, info := sgen.GenFeed(t, o)
-		inflated := 0
-		if k := rapid.IntRange(0, 199).Draw(t, "inflate"); k == 0 || (tierThorough() && k < 8) {
-			// size-dependent behaviour: a few hundred to a few thousand rows, and very long cells
-			inflated = rapid.SampledFrom([]int{300, 1100, 4200}).Draw(t, "inflateTo")
-			if !tierThorough() {
-				inflated = 300
-			}
-			f = sgen.InflateFeed(f, inflated)
-			if len(f.Stops) > 0 {
-				f.Stops[len(f.Stops)-1].Desc = strings.Repeat("long description, with commas and \"quotes\" ", rapid.SampledFrom([]int{100, 1700}).Draw(t, "longCell"))
-			}
+		f = sgen.InflateFeed(f, inflated)
+		if len(f.Stops) > 0 {
+			f.Stops[len(f.Stops)-1].Desc = strings.Repeat("long description, with commas and \"quotes\" ", rapid.SampledFrom([]int{100, 1700}).Draw(t, "longCell"))
 		}
-		p, dims := sgen.GenPresentation(t, f.Tables())
-		c := CaseStatic{Feed: f, Pres: p, Inherit: rapid.Bool().Draw(t, "inherit")}
-		classes, files2 := staticClasses(f, info, dims)
-		if inflated > 0 {
-			classes = append(classes, fmt.Sprintf("inflated-to-%d-rows", inflated))
-		}
-		c01Rec.Eval(classes...)
-		if info.MovedDates > 0 {
-			c01Rec.Exclude("date without a unique local midnight moved to the next day")
-		}
-		if files2 >= 3 && info.ReachedStopTimes >= 1 && dims >= 2 {
-			c01Rec.NontrivialCase(vt.Fingerprint(c), func() any { return c })
-		}
-		vt.Run(t, c01Rec, c, checkC01)
-	})
+	}
+	p, dims := sgen.GenPresentation(t, f.Tables())
+	c := CaseStatic{Feed: f, Pres: p, Inherit: rapid.Bool().Draw(t, "inherit")}
+	classes, files2 := staticClasses(f, info, dims)
+	if inflated > 0 {
+		classes = append(classes, fmt.Sprintf("inflated-to-%d-rows", inflated))
+	}
+	c01Rec.Eval(classes...)
+	if info.MovedDates > 0 {
+		c01Rec.Exclude("date without a unique local midnight moved to the next day")
+	}
+	if files2 >= 3 && info.ReachedStopTimes >= 1 && dims >= 2 {
+		c01Rec.NontrivialCase(vt.Fingerprint(c), func() any { return c })
+	}
+	vt.Run(t, c01Rec, c, checkC01)
 }
